@@ -576,6 +576,12 @@ def __Solver_2(simu: "_Simu", problemType: "ProblemType"):
 
     dofs_Dirichlet = simu.Bc_dofs_Dirichlet(problemType)
     values_Dirichlet = simu.Bc_values_Dirichlet(problemType)
+    # A dof entered in several Dirichlet conditions holds the sum of the entries (same convention as
+    # the elimination solver): one multiplier per dof, two rows for one dof make the system singular.
+    dofs_Dirichlet, inverse = np.unique(dofs_Dirichlet, return_inverse=True)
+    values_Dirichlet = np.bincount(
+        inverse, weights=values_Dirichlet, minlength=dofs_Dirichlet.size
+    )
 
     list_Bc_Lagrange = simu.Bc_Lagrange
 
